@@ -19,6 +19,14 @@ type GenCfg struct {
 	SetKeys []string
 	// probability weights
 	ScalarBias int // 0..10: higher = more scalars at depth>0
+	Descend    int // 0 = default (1 in 2); k > 0: mutations descend into a child with probability k in k+1
+}
+
+func (c GenCfg) descend(r *Rng) bool {
+	if c.Descend <= 0 {
+		return r.Chance(1, 2)
+	}
+	return r.Chance(c.Descend, c.Descend+1)
 }
 
 var smallNums = []float64{0, 1, 2, 3}
@@ -34,6 +42,11 @@ func DefaultCfg() GenCfg {
 
 func NastyCfg() GenCfg {
 	return GenCfg{MaxDepth: 4, MaxLen: 6, MaxKeys: 4, Nums: nastyNums, Strs: nastyStrs, Keys: nastyKeys, AllowNull: true, AllowBool: true, ScalarBias: 5}
+}
+
+// DeepCfg: narrow but deeply nested, object-heavy documents (paths of length 3..6)
+func DeepCfg() GenCfg {
+	return GenCfg{MaxDepth: 6, MaxLen: 3, MaxKeys: 3, Nums: smallNums, Strs: smallStrs, Keys: smallKeys, AllowNull: true, AllowBool: true, ScalarBias: 2, Descend: 5}
 }
 
 func (c GenCfg) scalar(r *Rng) *Val {
@@ -198,12 +211,30 @@ func (c GenCfg) mutateOnce(r *Rng, v *Val, depth int) *Val {
 	// descend with some probability
 	switch v.K {
 	case KArr:
-		if len(v.A) > 0 && r.Chance(1, 2) {
+		if len(v.A) > 0 && c.descend(r) {
 			i := r.Intn(len(v.A))
 			v.A[i] = c.mutateOnce(r, v.A[i], depth+1)
 			return v
 		}
-		switch r.Intn(8) {
+		switch r.Intn(10) {
+		case 8: // regroup: move the boundary between two adjacent nested arrays ([[1],[2,3]] -> [[1,2],[3]])
+			for i := 0; i+1 < len(v.A); i++ {
+				x, y := v.A[i], v.A[i+1]
+				if x.K == KArr && y.K == KArr && len(y.A) > 0 {
+					x.A = append(x.A, y.A[0])
+					y.A = y.A[1:]
+					break
+				}
+			}
+		case 9: // wrap / unwrap an element ([1] <-> [[1]])
+			if len(v.A) > 0 && len(c.SetKeys) == 0 {
+				i := r.Intn(len(v.A))
+				if v.A[i].K == KArr && len(v.A[i].A) == 1 {
+					v.A[i] = v.A[i].A[0]
+				} else {
+					v.A[i] = VArr(v.A[i])
+				}
+			}
 		case 0: // insert
 			i := r.Intn(len(v.A) + 1)
 			e := c.elemFor(r, v, depth)
@@ -244,14 +275,35 @@ func (c GenCfg) mutateOnce(r *Rng, v *Val, depth int) *Val {
 		return v
 	case KObj:
 		ks := v.Keys()
-		if len(ks) > 0 && r.Chance(1, 2) {
+		if len(ks) > 0 && c.descend(r) {
 			k := ks[r.Intn(len(ks))]
 			if !isIn(k, c.SetKeys) || r.Chance(1, 4) {
 				v.O[k] = c.mutateOnce(r, v.O[k], depth+1)
 			}
 			return v
 		}
-		switch r.Intn(5) {
+		switch r.Intn(8) {
+		case 5: // swap the values of two keys ({"x":1,"y":2} -> {"x":2,"y":1})
+			if len(ks) > 1 {
+				i, j := r.Intn(len(ks)), r.Intn(len(ks))
+				if !isIn(ks[i], c.SetKeys) && !isIn(ks[j], c.SetKeys) {
+					v.O[ks[i]], v.O[ks[j]] = v.O[ks[j]], v.O[ks[i]]
+				}
+			}
+		case 6: // swap a key with its string value ({"a":"b"} -> {"b":"a"})
+			if len(ks) > 0 {
+				k := ks[r.Intn(len(ks))]
+				if x := v.O[k]; x.K == KStr && !isIn(k, c.SetKeys) && !isIn(x.S, c.SetKeys) {
+					if _, exists := v.O[x.S]; !exists {
+						delete(v.O, k)
+						v.O[x.S] = VStr(k)
+					}
+				}
+			}
+		case 7: // delete the FIRST key (so that later keys are still visited by the differ)
+			if len(ks) > 1 && !isIn(ks[0], c.SetKeys) {
+				delete(v.O, ks[0])
+			}
 		case 0, 1: // add / overwrite key
 			v.O[c.Keys[r.Intn(len(c.Keys))]] = c.Doc(r, depth+1)
 		case 2, 3: // delete key
